@@ -442,6 +442,9 @@ class Prov(object):
                         return ('VIEW', v[1])
                     return FRESH if v[0] == 'FRESH' else UNK
                 return FRESH
+            if n == 'get_ncf_object' and argvals:
+                # opens a path, but hands an already open file object back unchanged: the result may be the caller's object
+                return vjoin(('FILE', 'new'), argvals[0]) if argvals[0][0] == 'FILE' else ('FILE', 'new')
             if n in self.file_classes or n in self.file_returning_funcs:
                 return ('FILE', 'new')
             if n in ('list', 'tuple', 'dict', 'set', 'sorted', 'len', 'int', 'float', 'str', 'bool', 'range', 'sum',
